@@ -233,7 +233,7 @@ def main():
         # driver: memory errors and undefined casts in the library abort the driver and show up as crashed cases
         try:
             t1 = time.time()
-            flags = '-g -fsanitize=address,undefined,float-cast-overflow -fno-sanitize-recover=all -D_GLIBCXX_ASSERTIONS' + (' -DVERIF_MPI' if use_mpi else '')      # (libstdc++ assertions: operator[] / front() / back() out of range abort)
+            flags = '-g -fsanitize=address,undefined,float-cast-overflow -fno-sanitize-recover=all -D_GLIBCXX_DEBUG' + (' -DVERIF_MPI' if use_mpi else '')      # (libstdc++ debug mode: operator[] / front() / back() out of range and invalidated iterators abort)
             san = tie.cxx_build(flags, 'asan-mpi' if use_mpi else 'asan')
             env = dict(os.environ); env['ASAN_OPTIONS'] = 'detect_leaks=0'; env['VERIF_TMP'] = os.path.join(BUILD, 'tmp')
             san_cases = list(cases)
